@@ -31,6 +31,10 @@ CHECKS = {
          "Macro definitions generated from quasiquote templates (unquote/splice at first, middle, last, adjacent and empty splices, under quote marks, nested lists; expanding to macro calls and to definitions; gensym hygiene; computed at expansion time; defmacro and a shadowing macrolet) with call sites whose argument forms carry effect probes: the real run must agree with the reference interpreter (value, condition, ordered effects: arguments unevaluated, expansion evaluated once in the caller's scope), with the same program whose call sites read (eval (macroexpand '(m ...))), and iterating macroexpand-1 must reach macroexpand's result; quasiquote results (depth <= 6) are compared structurally including quote marks; gensym symbols of runs up to 2000 must be pairwise distinct and absent from the program's symbol set.",
          "Trusts harness/refint's macro and quasiquote semantics; expansions containing gensyms are not compared textually.",
          "DESIGN.md 4/C07"),
+ "C08": ("exploration", "reference-model runtime monitor over generated multi-package programs + host-side observation of Runtime.Package and the registry through exported accessors",
+         "Programs over 2-5 packages with random orders of in-package / export (before and after definition) / use-package / set (plain and qualified) / defun (readers and setters of globals) / defmacro / redefinition after import / qualified and unqualified references / cross-package calls / load-string nesting to depth 3 with in-package inside / attempts to bind :k, true, false through set, set!, let, lambda formals, labels, dotimes; every reference is observed by an effect probe; probe trace, final values, conditions, Runtime.Package.Name after the load and every package's symbol table and export list are compared with the reference model.",
+         "The language package itself is never entered or modified by the workload (unspecified); trusts harness/refint's package model.",
+         "DESIGN.md 4/C08"),
  "C09": ("exploration", "structural-snapshot invariant monitor + twin execution (shared Program vs fresh parse) + Go race detector over concurrent private runtimes + the repository's checked build (-tags elpscheck) as second sanitizer",
          "26 in-place/capacity-sensitive mutator forms x 5 literals x 4 routing shapes (function returning a literal, literal in a loop body, macro arguments and &rest lists, cdr/slice views held in a global) plus generated programs; each Program is parsed once, snapshotted node by node (pointer, type, scalar fields, quoting, seal, source, len/cap, child pointers) and fingerprinted, then loaded 2-5 times in one runtime against a re-parsing twin, in fresh differently-configured runtimes, and concurrently by 2/8/32 goroutines under GOMAXPROCS 2/16 in the -race build; results must equal the fresh-parse reference, snapshot and fingerprint must be unchanged, a bystander runtime's packages must not change, no race report; a sequential sub-list is repeated under -tags elpscheck.",
          "The race detector only sees accesses the workload performs; same-value writes are invisible to the snapshot.",
